@@ -77,7 +77,14 @@ def fit_record(Xi, Yi, a, k, space, solver, route, y1d=False, Xn=None, pre=None,
                 Yh, W = pre
                 m_ = core.mk(PCovR, regressor="precomputed", **kw).fit(X, Yh.copy(), W=None if W is None else W.copy())
             else:
-                m_ = core.mk(PCovR, regressor=regressor_for(route), **kw).fit(X, Yarg)
+                reg_ = regressor_for(route)
+                if reg_ is not None and (int(np.abs(Xi).sum()) + k) % 4 == 0:
+                    # history: the caller's (unfitted) regressor object was handed to another PCovR, fitted on other data, before
+                    try:
+                        PCovR(mixing=0.5, n_components=1, regressor=reg_, tol=1e-12).fit(X[::-1] * 0.5 + 0.25 * X, Yarg[::-1] * 1.0)
+                    except Exception:
+                        pass
+                m_ = core.mk(PCovR, regressor=reg_, **kw).fit(X, Yarg)
                 Yh = m_.regressor_.predict(X).reshape(len(X), -1)
             T = m_.transform(X)
             Yp = m_.predict(X)
